@@ -439,6 +439,28 @@ func retryContext(ctx context.Context, rpcs []hrpc.Call) (context.Context, func(
 // regions encountered in the batch will start being initialized.
 func (c *client) findClients(ctx context.Context, batch []hrpc.Call, res []hrpc.RPCResult) (
 	map[hrpc.RegionClient][]hrpc.Call, bool) {
+	rpcByClient, ok := c.findClientsOnce(ctx, batch, res)
+	if !ok {
+		return rpcByClient, ok
+	}
+	// The lookup for a later call may have replaced the region an earlier
+	// call of this batch was given from the cache, and marked it dead (the
+	// regions were merged, say). Sent as they are, the earlier call would be
+	// refused and retried after the later ones: two writes to the same row
+	// would be applied in the wrong order. Locate the batch once more then,
+	// so that all its calls see the same regions.
+	for _, rpcs := range rpcByClient {
+		for _, rpc := range rpcs {
+			if rpc.Region().Context().Err() != nil {
+				return c.findClientsOnce(ctx, batch, res)
+			}
+		}
+	}
+	return rpcByClient, ok
+}
+
+func (c *client) findClientsOnce(ctx context.Context, batch []hrpc.Call, res []hrpc.RPCResult) (
+	map[hrpc.RegionClient][]hrpc.Call, bool) {
 
 	rpcByClient := make(map[hrpc.RegionClient][]hrpc.Call)
 	ok := true
